@@ -6,7 +6,7 @@ V=${VERIF_HOME:-/verif}; R=${VERIF_REPO:-/repo}
 cd $V || exit 2
 export VERIF_EVIDENCE_DIR=$V/.work/evidence-trial
 OUT=${1:-$V/.work/refactor_trials.log}; : > $OUT
-declare -A CHK=( [R1]="C01 C02 C03 C04 C06 C12 C15" [R2]="C01 C03 C04 C07 C12 C15" [R3]="C19 C04 C08 C07" [R4]="C05 C01 C02 C07" [R5]="C09 C10 C11 C01" [R6]="C14 C15 C02" [R7]="C01 C03 C07 C10 C12 C15" [R8]="C02 C14 C15" [R9]="C09 C10 C11" [R10]="C19 C10 C11 C07" [R11]="C01 C03 C04 C07 C12 C15" [R12]="C09 C10" [R13]="C01 C02 C03 C04 C06 C08 C12 C15" [R14]="C02 C15" [R15]="C01 C09 C10 C11" [R16]="C05 C01 C02 C07 C19" [R17]="C15 C14 C02" [R18]="C01 C02 C03 C04 C06 C08 C12 C15" [R19]="C01 C03 C04 C07 C12 C15" [R20]="C19 C04 C08 C10 C03" [R21]="C05 C01 C02 C06 C07" )
+declare -A CHK=( [R1]="C01 C02 C03 C04 C06 C12 C15" [R2]="C01 C03 C04 C07 C12 C15" [R3]="C19 C04 C08 C07" [R4]="C05 C01 C02 C07" [R5]="C09 C10 C11 C01" [R6]="C14 C15 C02" [R7]="C01 C03 C07 C10 C12 C15" [R8]="C02 C14 C15" [R9]="C09 C10 C11" [R10]="C19 C10 C11 C07" [R11]="C01 C03 C04 C07 C12 C15" [R12]="C09 C10" [R13]="C01 C02 C03 C04 C06 C08 C12 C15" [R14]="C02 C15" [R15]="C01 C09 C10 C11" [R16]="C05 C01 C02 C07 C19" [R17]="C15 C14 C02" [R18]="C01 C02 C03 C04 C06 C08 C12 C15" [R19]="C01 C03 C04 C07 C12 C15" [R20]="C19 C04 C08 C10 C03" [R21]="C05 C01 C02 C06 C07" [R22]="C01 C04 C09 C10 C15 C19 C03" [R23]="C01 C02 C05 C10 C15 C19 C14" [R24]="C01 C09 C10 C19 C15" [R25]="C01 C04 C05 C07 C10 C19 C12" )
 for f in refactors/${2:-}*.diff; do   # optional 2nd argument: prefix filter, e.g. R1[0-3]
   b=$(basename $f .diff); r=${b%%-*}
   if ! git -C $R diff --quiet; then echo "repo dirty" >> $OUT; exit 2; fi
